@@ -6,6 +6,10 @@ key 'b' holds a ZODB.blob.Blob.  The harness keeps NO Python reference to contai
 
     new k d | w k d | a k d | rp k d | r k       create / open('w') / open('a') / open('r+') + write d / read
     sp | rb n | commit | abort | gc | peek k     peek: committed bytes through a second connection
+    Bw k d | Ba k d | Brp k d | Br k | Bsp | Brb n | Bcommit | Babort
+                                                 the same through ANOTHER connection of the process (own transaction
+                                                 manager) whose transaction overlaps; it works on its own slots 3, 4
+                                                 (committed before the program starts), so there are no conflicts
 
 Observation per op: the result only.  Oracle: the bytes of every slot; a savepoint copies them, a rollback
 restores the copy (and invalidates later savepoints), commit publishes them, abort discards them."""
@@ -37,9 +41,22 @@ class World4:
         self.tm2 = transaction.TransactionManager()
         self.c2 = self.db.open(self.tm2)
         self.sps = []
+        self.tmB = transaction.TransactionManager()
+        self.connB = self.db.open(self.tmB)
+        self.spsB = []
+        if case.get('two'):
+            from ZODB.blob import Blob
+            from c11_classes import PMap
+            for k, d in ((3, 'P3'), (4, 'QQ4')):
+                c = PMap()
+                c['b'] = Blob(d.encode())
+                self.connB.root()['c%d' % k] = c
+            del c
+            self.tmB.commit()
+            self.tm.abort()             # (the connection under test starts after that commit)
 
     def close(self):
-        for f in (self.tm.abort, self.tm2.abort, self.db.close):
+        for f in (self.tm.abort, self.tm2.abort, self.tmB.abort, self.db.close):
             try:
                 f()
             except Exception:
@@ -49,6 +66,18 @@ class World4:
         return self.conn.root()['c%d' % k]['b']
 
     def run_op(self, op):
+        if op.startswith('B'):
+            # the same op through the other connection
+            keep = self.conn, self.tm, self.sps
+            self.conn, self.tm, self.sps = self.connB, self.tmB, self.spsB
+            try:
+                return self.run_op1(op[1:])
+            finally:
+                self.spsB = self.sps
+                self.conn, self.tm, self.sps = keep
+        return self.run_op1(op)
+
+    def run_op1(self, op):
         from ZODB.blob import Blob
         from c11_classes import PMap
         t = op.split()
@@ -121,13 +150,17 @@ def run_real(case, tmpdir, tag):
 
 
 def judge(case, real):
-    com = {}
-    cur = {}
-    sps = []
+    com = {3: 'P3', 4: 'QQ4'} if case.get('two') else {}
+    state = {'A': [{}, []], 'B': [{k: v for k, v in com.items()}, []]}       # who -> [bytes of its slots, savepoints]
     for idx, op in enumerate(case['ops'], 1):
         res = real[idx]
-        t = op.split()
+        who = 'B' if op.startswith('B') else 'A'
+        own = (lambda s: s >= 3) if who == 'B' else (lambda s: s < 3)
+        cur, sps = state[who]
+        t = (op[1:] if who == 'B' else op).split()
         k = t[0]
+        if k in ('new', 'w', 'a', 'rp', 'r') and not own(int(t[1])):
+            return ('taint', idx)
         if k == 'new':
             cur[int(t[1])] = t[2]
             exp = 'ok'
@@ -155,15 +188,17 @@ def judge(case, real):
                     sps[m] = None
                 exp = 'ok'
         elif k == 'commit':
-            com, sps, exp = dict(cur), [], 'ok'
+            com.update(cur)
+            sps, exp = [], 'ok'
         elif k == 'abort':
-            cur, sps, exp = dict(com), [], 'ok'
+            cur, sps, exp = {s: v for s, v in com.items() if own(s)}, [], 'ok'
         elif k == 'gc':
             exp = 'ok'
         elif k == 'peek':
             exp = ('d=' + com[int(t[1])]) if int(t[1]) in com else 'none'
         else:
             return ('taint', idx)
+        state[who] = [cur, sps]
         if res != exp:
             return (idx, 'C12:blob:%s:result' % k, 'op %r returned %r, the property requires %r' % (op, res, exp))
     return None
@@ -218,8 +253,29 @@ def gen(rng, kind):
     return dict(kind=kind, n=3, ops=ops, family='blobs')
 
 
+def gen_two(rng, kind):
+    """two connections of the process whose transactions overlap, both holding blob data in savepoints"""
+    opsA = ['new 0 AAA1', 'sp', rng.choice(['w', 'a', 'rp']) + ' 0 BB2']
+    if rng.random() < 0.5:
+        opsA += ['sp', 'w 0 C3']
+    opsA += ['rb 0', 'r 0', rng.choice(['commit', 'abort']), 'peek 0']
+    opsB = ['B%s %d DD4' % (rng.choice(['w', 'a', 'rp']), rng.choice([3, 4])), 'Bsp']
+    if rng.random() < 0.5:
+        opsB += ['B%s %d E5' % (rng.choice(['w', 'a']), rng.choice([3, 4])), 'Brb 0']
+    opsB += ['Br 3', 'Br 4', rng.choice(['Bcommit', 'Babort', 'Bcommit']), 'peek 3', 'peek 4']
+    # a random interleaving that keeps each connection's order
+    ops = []
+    while opsA or opsB:
+        src = opsA if (opsA and (not opsB or rng.random() < 0.5)) else opsB
+        ops.append(src.pop(0))
+    ops += ['r 0', 'Br 3', 'Br 4'] if 'commit' in ops else ['Br 3', 'Br 4']
+    return dict(kind=kind, n=5, ops=ops, family='blobs', two=1)
+
+
 def gen_scenario(rng, kind):
-    t = rng.randrange(3)
+    t = rng.randrange(5)
+    if t >= 3:
+        return gen_two(rng, kind)
     if t == 0:      # the savepoint's copy of a blob must survive a later open('a'/'r+') and a rollback
         ops = ['new 0 AAA1']
         if rng.random() < 0.5:
